@@ -3,7 +3,7 @@
   Property theorems only; the model is FordModel/Graph.lean, helper lemmas live in
   FordModel/Lemmas/Graph.lean and FordModel/Lemmas/GraphData.lean.
 
-  Vocabulary: `graphOf tab nd c roots` is the `FortranGraph` of class `c` (one of the
+  Vocabulary: `graphOf fx tab nd c roots` is the `FortranGraph` of class `c` (one of the
   twelve graph classes of ford/graphs.py) drawn over the node objects `nd` for the
   root entities `roots`; `succOf tab nd c` is what the class's `add_node` visits;
   `ReachLe s roots d n` says `n` is at most `d` steps of `s` away from a root.
@@ -17,18 +17,18 @@ open Ford Ford.Graph
 /-- **No dangling edge.**  Every edge of every graph — all twelve classes, every relation
     (chains, diamonds, cycles, disconnected parts), every depth and node limit, truncated or
     not — joins two nodes that are drawn in that graph. -/
-theorem edges_closed (tab : Table) (nd : NodeData) (c : GClass) (roots : List Node) :
-    ∀ e ∈ (graphOf tab nd c roots).edges,
-      e.tail ∈ (graphOf tab nd c roots).added ∧ e.head ∈ (graphOf tab nd c roots).added := by
+theorem edges_closed (fx : Bool) (tab : Table) (nd : NodeData) (c : GClass) (roots : List Node) :
+    ∀ e ∈ (graphOf fx tab nd c roots).edges,
+      e.tail ∈ (graphOf fx tab nd c roots).added ∧ e.head ∈ (graphOf fx tab nd c roots).added := by
   apply addNodes_closed _ (succOf_wf tab nd c)
   · intro e he; simp at he
   · intro n hn; exact mem_dedup.2 hn
 
 /-- **Node limit.**  A graph never shows more than `graph_maxnodes` nodes (the maximum over
     its roots), except that the roots themselves are always shown; and no node is drawn twice. -/
-theorem size_limit (tab : Table) (nd : NodeData) (c : GClass) (roots : List Node) :
-    (graphOf tab nd c roots).added.length ≤ max (cfgOf tab nd c roots).maxNodes (dedup roots).length
-      ∧ (graphOf tab nd c roots).added.Nodup := by
+theorem size_limit (fx : Bool) (tab : Table) (nd : NodeData) (c : GClass) (roots : List Node) :
+    (graphOf fx tab nd c roots).added.length ≤ max (cfgOf fx tab nd c roots).maxNodes (dedup roots).length
+      ∧ (graphOf fx tab nd c roots).added.Nodup := by
   constructor
   · exact addNodes_limit _ _ _ _ _ (Nat.le_max_left ..) (Nat.le_max_right ..)
   · exact addNodes_nodup _ _ _ _ (nodup_dedup roots)
@@ -36,30 +36,30 @@ theorem size_limit (tab : Table) (nd : NodeData) (c : GClass) (roots : List Node
 /-- **Soundness (depth limit).**  Whatever is drawn is reachable from the roots through the
     relation of the graph class within `graph_maxdepth` hops (one hop for the project-wide
     graphs; a configured depth of 0 still gives one hop). -/
-theorem sound (tab : Table) (nd : NodeData) (c : GClass) (roots : List Node) :
-    ∀ n ∈ (graphOf tab nd c roots).added,
+theorem sound (fx : Bool) (tab : Table) (nd : NodeData) (c : GClass) (roots : List Node) :
+    ∀ n ∈ (graphOf fx tab nd c roots).added,
       ReachLe (succN (succOf tab nd c)) roots
-        (if c.nested then max 1 (cfgOf tab nd c roots).maxNesting else 1) n := by
+        (if c.nested then max 1 (cfgOf fx tab nd c roots).maxNesting else 1) n := by
   have h0 : ∀ n ∈ dedup roots, ReachLe (succN (succOf tab nd c)) roots (1 - 1) n :=
     fun n hn => ⟨0, by omega, .root (mem_dedup.1 hn)⟩
   have h0' : ∀ n ∈ roots, ReachLe (succN (succOf tab nd c)) roots (1 - 1) n :=
     fun n hn => ⟨0, by omega, .root hn⟩
   cases hc : c.nested
-  · exact addNodes_sound (cfgOf tab nd c roots) roots roots 1 _ 1 (by omega) (by omega)
+  · exact addNodes_sound (cfgOf fx tab nd c roots) roots roots 1 _ 1 (by omega) (by omega)
       (by simp [cfgOf, hc]) h0 h0'
-  · exact addNodes_sound (cfgOf tab nd c roots) roots roots 1 _ _ (by omega) (Nat.le_max_left ..)
+  · exact addNodes_sound (cfgOf fx tab nd c roots) roots roots 1 _ _ (by omega) (Nat.le_max_left ..)
       (fun _ => Nat.le_max_right ..) h0 h0'
 
 /-- **Completeness.**  Unless `add_to_graph` refused a hop because of `graph_maxnodes`, the
     graph contains *every* entity within the depth bound: together with `sound`, a graph that
     was not cut by the node limit shows exactly the nodes reachable within `graph_maxdepth`. -/
-theorem complete (tab : Table) (nd : NodeData) (c : GClass) (roots : List Node)
-    (hcut : (graphOf tab nd c roots).cutBySize = false) :
+theorem complete (fx : Bool) (tab : Table) (nd : NodeData) (c : GClass) (roots : List Node)
+    (hcut : (graphOf fx tab nd c roots).cutBySize = false) :
     ∀ n, ReachLe (succN (succOf tab nd c)) roots
-        (if c.nested then max 1 (cfgOf tab nd c roots).maxNesting else 1) n →
-      n ∈ (graphOf tab nd c roots).added := by
+        (if c.nested then max 1 (cfgOf fx tab nd c roots).maxNesting else 1) n →
+      n ∈ (graphOf fx tab nd c roots).added := by
   intro n hn
-  refine addNodes_complete (cfgOf tab nd c roots) roots roots 1 _ (by omega) ?_ ?_ hcut _ n ?_ ?_ hn
+  refine addNodes_complete (cfgOf fx tab nd c roots) roots roots 1 _ (by omega) ?_ ?_ hcut _ n ?_ ?_ hn
   · rintro m ⟨k, hk, hr⟩
     have : k = 0 := by omega
     subst this
@@ -70,12 +70,12 @@ theorem complete (tab : Table) (nd : NodeData) (c : GClass) (roots : List Node)
   · intro hc; simp [cfgOf] at hc; simp [hc]
 
 /-- **Exactness of the drawn node set** (`sound` + `complete`). -/
-theorem exact_nodes (tab : Table) (nd : NodeData) (c : GClass) (roots : List Node)
-    (hcut : (graphOf tab nd c roots).cutBySize = false) (n : Node) :
-    n ∈ (graphOf tab nd c roots).added ↔
+theorem exact_nodes (fx : Bool) (tab : Table) (nd : NodeData) (c : GClass) (roots : List Node)
+    (hcut : (graphOf fx tab nd c roots).cutBySize = false) (n : Node) :
+    n ∈ (graphOf fx tab nd c roots).added ↔
       ReachLe (succN (succOf tab nd c)) roots
-        (if c.nested then max 1 (cfgOf tab nd c roots).maxNesting else 1) n :=
-  ⟨sound tab nd c roots n, complete tab nd c roots hcut n⟩
+        (if c.nested then max 1 (cfgOf fx tab nd c roots).maxNesting else 1) n :=
+  ⟨sound fx tab nd c roots n, complete fx tab nd c roots hcut n⟩
 
 /-- **Inverse bookkeeping.**  After any sequence of node creations (`register` / `get_node`,
     recursively, in any order, with cycles), `b` is in a forward set of `a` (`uses`, `ancestor`,
@@ -169,8 +169,8 @@ theorem call_skip_kept (tab : Table) (fuel : Nat) (calls r : List Node)
 
 /-- **`graph: false` removes the entity's own graphs**: every per-entity graph `graph_all`
     draws belongs to an entity whose metadata say `graph: true`. -/
-theorem graph_false_no_own_graph (tab : Table) (nd : NodeData) (order : List Node) (e : Node)
-    (c : GClass) (g : GState) (h : (e, c, g) ∈ perEntityOf tab nd (registered tab order)) :
+theorem graph_false_no_own_graph (fx : Bool) (tab : Table) (nd : NodeData) (order : List Node) (e : Node)
+    (c : GClass) (g : GState) (h : (e, c, g) ∈ perEntityOf fx tab nd (registered tab order)) :
     (ent tab e).graph = true := by
   simp only [perEntityOf, List.mem_flatMap, entityGraphs, List.mem_map, Prod.mk.injEq] at h
   obtain ⟨r, hr, _, _, rfl, _⟩ := h
@@ -197,8 +197,8 @@ theorem graph_false_witness :
     let tab : Table := [{ kind := .mod, uses := [1], maxNodes := 10 }, { kind := .mod, graph := false }]
     let nd : NodeData := { created := [0, 1], fwd := [⟨0, .uses, 1⟩], inv := [⟨1, .uses, 0⟩] }
     (ent tab 1).graph = false ∧ registered tab [0, 1] = [0] ∧ create tab 10 [0] {} = some nd
-      ∧ useRootsOf tab [0] (perEntityOf tab nd [0]) = [0]
-      ∧ 1 ∈ (graphOf tab nd .module [0]).added := by
+      ∧ useRootsOf tab [0] (perEntityOf false tab nd [0]) = [0]
+      ∧ 1 ∈ (graphOf false tab nd .module [0]).added := by
   refine ⟨by decide, by decide, by decide, ?_, ?_⟩
   · simp [useRootsOf, isKind, ent]
   · rw [graphOf, runGraph, addNodes]
